@@ -30,7 +30,7 @@ def run(diff):
         shutil.rmtree(d, ignore_errors=True)
 
 diffs = sorted(glob.glob(os.path.join(os.path.abspath(sys.argv[1]), "*.diff")))
-with concurrent.futures.ThreadPoolExecutor(max_workers=4) as ex:
+with concurrent.futures.ThreadPoolExecutor(max_workers=int(os.environ.get("FA_JOBS", "4"))) as ex:
     res = list(ex.map(run, diffs))
 n = 0
 for d, st, bad in res:
